@@ -53,6 +53,8 @@ def gen_cases(rng, tier: str) -> list[dict]:
 def check_cases(cases: list[dict], rep: Report, known: dict) -> None:
     ncs = []
     for c in cases:
+        if rep.stop():
+            break
         e = wire.build_raw(c["e"])
         p = wire.build_point(c["p"])
         for q in c.get("prior", []):
